@@ -297,7 +297,7 @@ Definition apply_filter (f : fname) (v : val) (args : list val) : eres :=
       | VList [] => EOk VNil
       | VList (x :: _) => EOk x
       | VRange lo hi => if (hi <? lo)%Z then EOk VNil else EOk (VInt lo)
-      | VUndef => EOk VUndef
+      | VUndef => EOk VNil      (* Undefined is an (empty) Mapping: nil since /repo d21fa41 *)
       | VForLoop _ _ idx _ =>
           (* a ForLoop is a Mapping whose items are sorted by key: the first pair is
              ("first", forloop.first) (first on any Mapping since /repo d21fa41) *)
